@@ -38,23 +38,375 @@ func meta(id, level, expl string, quick, thorough, outside string, extraAssume .
 		Intrinsics:  commonIntrinsics}
 }
 
+const (
+	boundsA = "A-mode (all bytes symbolic): UnmarshalBinary bodies of every length 0..N_max with N_max = CONNECT %s, CONNACK %s, PUBLISH %s, others %s (PINGREQ/PINGRESP/Undefined 3); ReadPacket streams of 0..%s bytes with declared remaining length <= stream length + 2"
+	boundsS = "S-mode (shape concrete, every value and content byte symbolic): per type minimal / all-present / each property alone / scalar presence subsets by forking; strings of length 0,1,2 and one string or binary field at a time at length %s (contents longer than 24 bytes: 4 symbolic bytes at each end, concrete filler between); 0-2 user properties, 0-3 list elements, will on/off with each will property, credentials in all four combinations, PUBLISH QoS 0-2, payloads of 100/200/20000 bytes%s"
+)
+
 func init() {
+	sQuick := fmt.Sprintf(boundsS, "127, 128, 65535", "")
+	sThor := fmt.Sprintf(boundsS, "127, 128, 16383, 16384, 65534, 65535", " and 2097162 bytes (four-byte remaining length)")
+	aQuick := fmt.Sprintf(boundsA, "10", "7", "7", "8", "6")
+	aThor := fmt.Sprintf(boundsA, "12", "9", "9", "10", "8")
+	outS := "lengths strictly between the listed boundary values; more than 2 user properties or 3 list elements; multi-byte UTF-8 (string contents are drawn from 0x01..0x7f); contents of long strings other than their first and last four bytes"
+	outA := "frames longer than N_max with arbitrary content (the windowed templates reach further but are not complete); declared remaining lengths beyond stream length + 2"
+
+	meta("C01", "model_checking",
+		"For every shape an abstract packet with symbolic values is built through the public constructors and setters, written with WriteTo into a contiguous sink, read back with ReadPacket, and every public accessor of the decoded packet is compared (one solver query per observation) with the value that was set; the decoded packet is written again and compared byte for byte. All library code (setters, two-pass encoders, ReadPacket, property loop, wire types) is executed symbolically from go/ssa.",
+		sQuick, sThor, outS)
+	meta("C02", "model_checking",
+		"As C01, but the frame WriteTo produced is judged by a strict reference decoder written in the harness from the MQTT v5.0 specification text (own constants, own variable-byte-integer code, shares nothing with the library) which is itself executed symbolically: exactly one frame, minimal and exact remaining length, reserved flag bits, field order, admissible property identifiers with their wire types at most once, and the decoded values equal the values set (absent property = zero value).",
+		sQuick+"; well-formed packets only (topic name or non-zero alias, non-zero packet identifier with QoS > 0, at least one list element)", sThor, outS,
+		"the reference decoder implements the specification correctly (mitigated: it is exercised against the reference encoder and the library in C03)")
+	meta("C03", "model_checking",
+		"Two job families. S-mode: frames come from a reference encoder written from the specification (property orders the library never emits: ascending, descending, rotated; explicit zero-valued properties; PUBACK-family frames of remaining length 2 and 3; DISCONNECT/AUTH of length 0/1; DISCONNECT properties; multi-byte property lengths; boundary string lengths) with symbolic values; ReadPacket must accept and every accessor must equal the value the frame carries. A-mode: the body is N unconstrained symbolic bytes; the library decoder and the reference decoder are both executed symbolically and whenever the reference verdict is VALID the library must accept and agree on every accessor.",
+		sQuick+"; "+aQuick+" (A-mode classifier: one byte less, CONNECT 10)", sThor+"; "+aThor, outS+"; "+outA+"; frames the reference decoder classifies as carrying a value-level protocol error (nothing is asserted about them)")
+	meta("C04", "model_checking",
+		"UnmarshalBinary of all 16 types and ReadPacket are executed on fully symbolic bytes; every slice/index/make bounds check of the compiled code is a fork whose failing side is asked of the solver, so a reachable runtime panic yields a concrete input. T-mode: valid frames with a 1-2 byte unconstrained window at every offset and every prefix of valid frames (remaining length kept and adjusted). ReadPacket must return exactly one of packet and error.",
+		aQuick+"; windows of 1 byte (2 bytes for types other than CONNECT/CONNACK/PUBLISH) over small valid frames of every type; all prefixes", aThor+"; windows of 1 and 2 bytes", outA)
+	meta("C05", "model_checking",
+		"The explorations of C04 with the engine's step meter and allocation meter as unwinding assertions: every path must finish within 3000*(N+4) library SSA instructions and 64*(N+4)+4096 bytes (+ the declared remaining length for ReadPacket); there is no silent unwinding limit, exhausting a budget is the violation. Returned (and half-built) packets must not hold more list elements than the frame has bytes. Extra family: SUBSCRIBE/UNSUBSCRIBE/SUBACK/UNSUBACK payload sections of N arbitrary bytes.",
+		aQuick+"; list payloads of 0..7 bytes", aThor+"; list payloads of 0..10 bytes", outA+"; 'proportional' is checked as these fixed linear budgets (a quadratic algorithm with a small constant would pass at these sizes)")
+	meta("C06", "model_checking",
+		"One ReadPacket call on a frame followed by three unconstrained trailing bytes, from a counting contiguous reader: the number of bytes consumed must be exactly the frame, on acceptance and on content rejection; the call is repeated on a second stream that differs only in the trailing bytes (fresh symbols) and outcome and every accessor must be equal — a two-run non-interference check decided by the solver. Plus 1-3 frame concatenations read to io.EOF. One call from an arbitrary position is the inductive step for arbitrary sequences.",
+		"A-mode: first byte symbolic, bodies 0..5 bytes; S-mode small valid frames of every type incl. remaining length 0; 8 sequences", "A-mode bodies 0..7; 12 sequences", outA)
+	meta("C07", "model_checking",
+		"One symbolic frame is read twice: contiguously and through a reader whose chunk size per Read is a symbolic integer constrained only by the io.Reader contract (0..min(len(p), rest), at most Z consecutive (0,nil) results, last chunk as (n,io.EOF) or (n,nil)+(0,io.EOF) chosen by a symbolic boolean); the solver enumerates exactly the feasible schedules. Same acceptance and same accessor values are asserted.",
+		"A-mode whole frames of 2..5 bytes (Z=0; Z=1 up to 4 bytes); S-mode minimal valid frame of every type, Z=0", "A-mode 2..6 bytes, Z in {0,1}", outA+"; more than one consecutive empty read")
+	meta("C08", "model_checking",
+		"A proper prefix of a symbolic frame is delivered (cut offset symbolic: every offset of every frame shape), then the reader returns (0,io.EOF) forever, or (0,E), or the last chunk together with E. ReadPacket must return a nil packet and an error, errors.Is(err,E) for failures, errors.Is(err,io.EOF) for a cut at offset 0.",
+		"A-mode whole frames of 2..5 bytes; S-mode small valid frames of every type; 3 failure modes", "A-mode 2..7 bytes", outA+"; prefix delivered contiguously (fragmented delivery of the prefix is C07's subject)")
+	meta("C09", "model_checking",
+		"(a) valid frames from the reference encoder are cut at every position strictly inside a unit (2/4-byte integer, length-prefixed string, variable byte integer, property identifier + value), remaining length set to the shortened size: must be rejected; A-mode: on N arbitrary bytes the reference decoder classifies and TRUNCATED/5-byte-varint/bad-boolean/undefined-property frames must be rejected. (b) a symbolic 5-byte variable byte integer at the remaining length (15 types), every property length, both subscription identifier positions. (c) every boolean property with a symbolic value >= 2 (254 values, one query). (d) a symbolic undefined identifier (229 values, one symbol) in the property section of every type, followed by 0,1,2,4 arbitrary bytes.",
+		sQuick+" (cuts: strings up to 128 bytes); "+aQuick+" (classifier: one byte less)", sThor+"; "+aThor, outS+"; "+outA+"; the raw PUBLISH payload is exempt from (a) as the property states")
+	meta("C10", "model_checking",
+		"WriteTo of every C01 shape (plus QoS 3, empty lists, zero values, Undefined) against three writer stubs: accept all, fail before writing with error E, accept a symbolic k < frame length and return (k,E). Exactly one Write call, bytes are exactly one frame by their own remaining length, returned count and error are the writer's, and the integer String() prints before ' bytes' (a rope query on the symbolic fmt result) equals the frame length.",
+		sQuick+" (short writes: frames without boundary-length fields)", sThor, outS)
+	meta("C11", "model_checking",
+		"The same packet is encoded seven times with String, Dump, WellFormed and all accessors in between; the engine runs map iterations in insertion order, reversed, alternating per Range execution (length pass vs write pass), and rotated by 1..3 — the iteration order is an explicit schedule parameter of the interpreter instead of the runtime's random choice. All encodings must be byte-identical and no accessor may change. A counterexample order is confirmed natively by encoding the packet 2000 times until two outputs differ.",
+		"C01 shapes without boundary-length fields; orders: insertion, reverse, alternating, rotations 1-3", "same plus scalar-presence forking for CONNECT/CONNACK", outS+"; iteration orders other than the six listed (not all n! permutations)",
+		"an encoder whose output depends on map iteration order differs between insertion order and at least one of reverse / alternating / rotated orders")
+	meta("C12", "model_checking",
+		"Every public setter/adder (symbolic arguments, strings of length 0 and 1) is applied (a) to a packet already built with symbolic values — set-after-set from an arbitrary API-reachable state — and (b) in sequences of two (thorough: three) from a fresh packet; after every call all accessors are compared with a record-of-fields model kept by the harness (derived CONNECT flags, will bits, session present, PUBLISH bits included), and the frame then written is read by the reference decoder and compared with the model.",
+		"all setters x 2 pre-states x string length {0,1}; all pairs of setters per type (CONNECT/CONNACK: a third of the ordered pairs plus all repeats)", "all ordered pairs and k1,k2,k1 triples", "histories longer than 3; string arguments longer than 1 byte")
+	meta("C13", "other",
+		"Solver-based symbolic execution does not explore goroutine interleavings. What is decided on the real code is the premise of the lemma 'operations that perform no write to memory reachable by another goroutine cannot race': after the packet exists, every object allocated so far and all package-level variables are marked shared; WriteTo, String, Dump, WellFormed, all accessors and a ReadPacket on a private stream are executed on all symbolic paths and every Store, MapUpdate, in-place append and copy into a shared object is counted by the interpreter; the count must be 0 on every feasible path (infeasible paths are pruned by the solver). With no shared writes every interleaving of such calls is race-free and each WriteTo computes the sequential result.",
+		"C01 shapes without boundary-length fields, built and decoded packets; a will message shared between a CONNECT and direct use", "same plus scalar-presence forking", outS+"; interleavings are not enumerated (sufficient condition only); synchronisation primitives are not modelled (a tree that introduces them is reported as inconclusive, not as a violation)")
+	meta("C14", "model_checking",
+		"Aliasing: a packet is decoded (UnmarshalBinary of all 16 types on arbitrary bytes and on valid bodies; ReadPacket), all accessors are snapshotted, then every byte of the input slice is overwritten with a fresh symbolic byte and the solver is asked whether any accessor can change. Interference: two packets are decoded from independent symbolic frames; every setter, WriteTo, String and Dump run on the first; the second's accessors must be unchanged, no package-level object may be written (interpreter monitor), and decoding the first frame again must give the first result.",
+		aQuick+" (two bytes less); "+sQuick+" (strings up to 128 bytes)", aThor+"; "+sThor, outS+"; "+outA)
 	meta("C15", "model_checking",
 		"The unexported variable-byte-integer codec (fill, width, UnmarshalBinary, ReadFrom) and buffer.get are executed symbolically. Encoding: one symbolic 32-bit value constrained to 0..268435455, compared byte for byte with shift/mask arithmetic written in the harness; the encoder loop forks into the four size classes and each class is one solver query over all its values, so the whole 2^28 domain is decided. Decoding: all byte sequences of length 0..5 with every byte symbolic; both decoders must agree with a specification reading.",
 		"value: all 2^28; byte sequences: every length 0..5, all bytes symbolic; subscription identifier 1..268435455 through SetSubscriptionID/WriteTo/ReadPacket",
 		"same (the domain is already complete); plus sequences of length 6 and 7",
 		"values above 268435455 handed to the encoder (not representable in MQTT)")
+	meta("C16", "model_checking",
+		"The first byte is one symbolic byte (all 256 values); the dispatch forks on the type nibble and for each type a valid body from the reference encoder (minimal, remaining length 0 where allowed, richer) follows. The dynamic type must match the nibble, Undefined must carry the body, PUBLISH must report DUP/QoS/RETAIN of the byte, and writing the decoded packet must reproduce the byte.",
+		"256 first bytes x 3 body sets", "same", "PUBLISH with both QoS bits set may be rejected (malformed); if accepted its flags are checked")
+	meta("C17", "model_checking",
+		"Publish (topic length 0..2, topic alias, QoS 0..3, packet identifier symbolic), Subscribe (0..2 filters of length 0..1, a symbolic option byte per filter, subscription identifier over the whole non-negative int range or unset) and TopicFilter are built through the API and decoded from the wire; WellFormed() != nil must equal the documented predicate written out in the harness, and String() must contain the literal 'malformed!' exactly then (a rope query on format-literal text; contents are assumed free of '!').",
+		"all values of the scalar fields; topic length 0,1,2; 0-2 filters", "same plus two filters with subscription identifier", "filters and topics longer than 2 bytes (WellFormed only looks at emptiness)")
+	meta("C18", "model_checking",
+		"Non-interference by self-composition: two CONNECT packets are built from the same symbolic values except user name and password, which are independent symbolic byte strings of equal concrete lengths; String() and Dump() of both are produced as ropes by the symbolic fmt model and compared piece by piece, symbolic pieces by a solver query for all values. Built through the API and decoded from the wire; other fields are independent symbols the solver may set equal to the secrets.",
+		"credential lengths {1,2,9,10} (equal pairs and 1+10, 2+9); minimal CONNECT and CONNECT with all properties, user property and will", "all 16 length pairs, two more shapes", "credential lengths other than 1, 2, 9, 10",
+		"fmt renders as a function of its operands (the rope model)")
+	meta("C19", "model_checking",
+		"String() and Dump() are executed symbolically on zero values and fresh packets of all types, on packets under construction (setter sequences), on the receivers of UnmarshalBinary on arbitrary bytes whether or not decoding succeeded, and on packets ReadPacket returns; reaching a panic or exhausting the step budget inside a renderer is the violation. The byte renderings (reason codes, first byte, CONNECT flags, CONNACK flags, subscription options) are driven with one symbolic byte each, every table index bounds-checked by the solver.",
+		"UnmarshalBinary bodies up to N_max-4 per type, ReadPacket streams up to 4 bytes, setter pairs, 5 byte renderings", "bodies up to N_max-3, streams up to 5 bytes", outA,
+		"fmt itself does not panic or block")
+	indirectHarness["ZZ_C11_det"] = "ZZ_C11_native"
 }
 
 func jobsFor(prop, tier string) []*Job {
 	thorough := tier == "thorough"
 	var jobs []*Job
 	add := func(family, fn string, reach []string, args ...int) *Job {
-		j := &Job{Prop: prop, Family: family, Fn: fn, Args: args, Reach: reach}
+		j := &Job{Prop: prop, Family: family, Fn: fn, Args: args, Reach: reach, Split: 6}
 		jobs = append(jobs, j)
 		return j
 	}
+	tn := func(t int) string { return typeNames[t] }
+	// N_max of arbitrary-bytes (A-mode) bodies per type
+	nmax := func(t int, quick, thoroughN int) int {
+		if thorough {
+			return thoroughN
+		}
+		return quick
+	}
+	umMax := func(t int) int {
+		switch t {
+		case 1:
+			return nmax(t, 10, 12)
+		case 2:
+			return nmax(t, 7, 9)
+		case 3:
+			return nmax(t, 7, 9)
+		case 12, 13, 0:
+			return 3
+		}
+		return nmax(t, 8, 10)
+	}
 	switch prop {
+	case "C01":
+		for t := 1; t <= 15; t++ {
+			for _, sh := range apiShapes(t, thorough, false) {
+				add("rt/"+tn(t), "ZZ_C01_rt", []string{"rt"}, sh.Args()...)
+			}
+		}
+	case "C02":
+		for t := 1; t <= 15; t++ {
+			for _, sh := range apiShapes(t, thorough, true) {
+				add("valid/"+tn(t), "ZZ_C02_valid", []string{"written", "valid"}, sh.Args()...)
+			}
+		}
+	case "C03":
+		for t := 1; t <= 15; t++ {
+			for _, sh := range wireShapes(t, thorough) {
+				add("dec/"+tn(t)+"/S", "ZZ_C03_dec", []string{"dec"}, sh.Args()...)
+			}
+			top := umMax(t) - 1
+			if t == 1 {
+				top = umMax(t)
+			}
+			for n := 0; n <= top; n++ {
+				if t == 3 {
+					for q := 0; q <= 2; q++ {
+						add("dec/"+tn(t)+"/A", "ZZ_C03_cls", []string{"cls"}, t, n, 3, q)
+					}
+				} else {
+					add("dec/"+tn(t)+"/A", "ZZ_C03_cls", []string{"cls"}, t, n, 3)
+				}
+			}
+		}
+	case "C04":
+		for t := 0; t <= 15; t++ {
+			for n := 0; n <= umMax(t); n++ {
+				add("um/"+tn(t), "ZZ_C04_um", []string{"um"}, t, n)
+			}
+		}
+		for m := 0; m <= nmax(0, 6, 8); m++ {
+			add("rp", "ZZ_C04_rp", []string{"rp"}, m)
+		}
+		// prefixes and field-level damage of valid frames: T-mode
+		for t := 1; t <= 15; t++ {
+			for _, sh := range smallWireShapes(t, thorough) {
+				for _, w := range []int{1, 2} {
+					if w == 2 && !thorough && t <= 3 {
+						continue
+					}
+					add("tw/"+tn(t), "ZZ_C04_window", []string{"window"}, append([]int{w}, sh.Args()...)...)
+				}
+				add("prefix/"+tn(t), "ZZ_C04_prefix", []string{"prefix"}, sh.Args()...)
+			}
+		}
+	case "C05":
+		for t := 0; t <= 15; t++ {
+			for n := 0; n <= umMax(t); n++ {
+				add("um/"+tn(t), "ZZ_C05_um", []string{"um"}, t, n)
+			}
+		}
+		for m := 0; m <= nmax(0, 6, 8); m++ {
+			add("rp", "ZZ_C05_rp", []string{"rp"}, m)
+		}
+		for _, t := range []int{8, 9, 10, 11} {
+			for n := 0; n <= nmax(t, 7, 10); n++ {
+				add("lists/"+tn(t), "ZZ_C05_lists", []string{"lists"}, t, n)
+			}
+		}
+	case "C06":
+		for n := 0; n <= nmax(0, 5, 7); n++ {
+			add("one/A", "ZZ_C06_amode", []string{"one"}, n)
+		}
+		for t := 1; t <= 15; t++ {
+			for _, sh := range smallWireShapes(t, thorough) {
+				add("one/S/"+tn(t), "ZZ_C06_smode", []string{"one"}, sh.Args()...)
+			}
+		}
+		seqs := [][]int{{12}, {13, 12}, {4, 3}, {2, 14}, {3, 8, 12}, {14, 15, 4}, {1, 2}, {10, 11, 9}}
+		if thorough {
+			seqs = append(seqs, []int{5, 6, 7}, []int{3, 3, 3}, []int{12, 12, 12}, []int{15, 1, 3})
+		}
+		for _, sq := range seqs {
+			add("seq", "ZZ_C06_seq", []string{"seq"}, sq...)
+		}
+	case "C07":
+		for n := 2; n <= nmax(0, 5, 6); n++ {
+			for z := 0; z <= 1; z++ {
+				if z == 1 && n > 4 && !thorough {
+					continue
+				}
+				add("frag/A", "ZZ_C07_amode", []string{"frag"}, n, z)
+			}
+		}
+		for t := 1; t <= 15; t++ {
+			for _, sh := range smallWireShapes(t, false)[:1] {
+				add("frag/S/"+tn(t), "ZZ_C07_smode", []string{"frag"}, append([]int{0}, sh.Args()...)...)
+			}
+		}
+	case "C08":
+		for mode := 0; mode <= 2; mode++ {
+			for n := 2; n <= nmax(0, 5, 7); n++ {
+				add("cut/A", "ZZ_C08_amode", []string{"cut"}, n, mode)
+			}
+			for t := 1; t <= 15; t++ {
+				for _, sh := range smallWireShapes(t, thorough) {
+					add("cut/S/"+tn(t), "ZZ_C08_smode", []string{"cut"}, append([]int{mode}, sh.Args()...)...)
+				}
+			}
+		}
+	case "C09":
+		for t := 1; t <= 15; t++ {
+			if t == 12 || t == 13 {
+				continue
+			}
+			for _, sh := range wireShapes(t, thorough) {
+				if sh.Flen > 128 && !thorough {
+					continue
+				}
+				add("cut/"+tn(t), "ZZ_C09_cut", nil, sh.Args()...)
+			}
+			top := umMax(t) - 1
+			for n := 0; n <= top; n++ {
+				if t == 3 {
+					for q := 0; q <= 2; q++ {
+						add("cls/"+tn(t), "ZZ_C03_cls", []string{"cls"}, t, n, 9, q)
+					}
+				} else {
+					add("cls/"+tn(t), "ZZ_C03_cls", []string{"cls"}, t, n, 9)
+				}
+			}
+		}
+		for t := 1; t <= 15; t++ {
+			add("vb5/rl", "ZZ_C09_vb5", []string{"vb5"}, 0, t)
+			if t != 12 && t != 13 {
+				add("vb5/proplen", "ZZ_C09_vb5", []string{"vb5"}, 1, t)
+			}
+		}
+		add("vb5/subid", "ZZ_C09_vb5", []string{"vb5"}, 2, 8)
+		add("vb5/subid", "ZZ_C09_vb5", []string{"vb5"}, 3, 3)
+		for _, tb := range [][2]int{{3, 0x01}, {16, 0x01}, {1, 0x17}, {1, 0x19}, {2, 0x25}, {2, 0x28}, {2, 0x29}, {2, 0x2a}} {
+			add("bool", "ZZ_C09_bool", []string{"bool"}, tb[0], tb[1])
+		}
+		for t := 1; t <= 15; t++ {
+			if t == 12 || t == 13 {
+				continue
+			}
+			for _, r := range []int{0, 1, 2, 4} {
+				add("undef/"+tn(t), "ZZ_C09_undef", []string{"undef"}, t, r)
+			}
+		}
+	case "C10":
+		for t := 1; t <= 15; t++ {
+			for _, sh := range apiShapes(t, thorough, false) {
+				if sh.Flen > 128 && !thorough {
+					continue
+				}
+				for mode := 0; mode <= 2; mode++ {
+					if mode == 2 && (sh.Flen > 0 || sh.Big > 0) {
+						continue // one path per accepted count: small frames only
+					}
+					add("write/"+tn(t), "ZZ_C10_write", []string{"write"}, append([]int{mode}, sh.Args()...)...)
+				}
+			}
+		}
+		add("odd", "ZZ_C10_odd", []string{"undefined"}, 0)
+		for _, k := range []int{1, 2, 3, 5} {
+			for mode := 0; mode <= 2; mode++ {
+				add("odd", "ZZ_C10_odd", []string{"write"}, k, mode)
+			}
+		}
+		add("odd", "ZZ_C10_odd", []string{"write"}, 4)
+	case "C11":
+		for t := 1; t <= 15; t++ {
+			for _, sh := range apiShapes(t, thorough, false) {
+				if sh.Flen > 128 || sh.Big > 200 {
+					continue
+				}
+				if (t == 1 || t == 2) && sh.Nz == 0 && sh.Mask&(sh.Mask-1) != 0 && !thorough {
+					continue // many scalar-presence forks times seven encodings
+				}
+				j := add("det/"+tn(t), "ZZ_C11_det", []string{"det"}, sh.Args()...)
+				j.NoValidate = true
+			}
+		}
+	case "C12":
+		for t := 1; t <= 15; t++ {
+			if t == 12 || t == 13 {
+				continue
+			}
+			n := setterCount[t]
+			// one more setter on a packet built with symbolic values
+			shapes := []Sh{{Typ: t, Slen: 1, NList: b2i(hasList(t))}, {Typ: t, Mask: apiMask(t), Slen: 1, NUser: 1, NList: b2i(hasList(t)), Nz: 1}}
+			if t == 1 {
+				shapes[1].Will, shapes[1].Cred = 1|(1<<6-1)<<1, 3
+			}
+			if t == 3 {
+				shapes[1].Qos = 1
+			}
+			for k := 0; k < n; k++ {
+				for _, l := range []int{0, 1} {
+					for _, sh := range shapes {
+						add("step/"+tn(t), "ZZ_C12_step", []string{"step"}, append([]int{k, l}, sh.Args()...)...)
+					}
+				}
+			}
+			// histories from a fresh packet
+			for k1 := 0; k1 < n; k1++ {
+				for k2 := 0; k2 < n; k2++ {
+					if (t == 1 || t == 2) && !thorough && k1 != k2 && (k1+k2)%3 != 0 {
+						continue
+					}
+					add("seq/"+tn(t), "ZZ_C12_seq", []string{"seq"}, t, 1, k1, k2)
+					if thorough {
+						add("seq/"+tn(t), "ZZ_C12_seq", []string{"seq"}, t, 0, k1, k2, k1)
+					}
+				}
+			}
+		}
+		add("filter", "ZZ_C12_filter", []string{"filter"}, 0)
+		add("filter", "ZZ_C12_filter", []string{"filter"}, 1)
+	case "C13":
+		for t := 1; t <= 15; t++ {
+			for _, sh := range apiShapes(t, thorough, false) {
+				if sh.Flen > 128 || sh.Big > 200 {
+					continue
+				}
+				if (t == 1 || t == 2) && sh.Nz == 0 && sh.Mask&(sh.Mask-1) != 0 && !thorough {
+					continue
+				}
+				for built := 0; built <= 1; built++ {
+					if t == 14 && built == 1 {
+						continue
+					}
+					j := add("ro/"+tn(t), "ZZ_C13_ro", []string{"ro"}, append([]int{built}, sh.Args()...)...)
+					j.NoValidate = true
+				}
+			}
+		}
+		for _, wm := range []int{0, 1, 63} {
+			j := add("will", "ZZ_C13_will", []string{"will"}, Sh{Typ: 1, Slen: 1, NUser: 1, Will: 1 | wm<<1, Nz: 1}.Args()...)
+			j.NoValidate = true
+		}
+	case "C14":
+		for t := 0; t <= 15; t++ {
+			for n := 0; n <= umMax(t)-2; n++ {
+				add("alias/um/"+tn(t), "ZZ_C14_alias_um", nil, t, n)
+			}
+			for n := 0; n <= nmax(t, 4, 6); n++ {
+				add("alias/rp/"+tn(t), "ZZ_C14_alias_rp", nil, t, n)
+			}
+			if t >= 1 {
+				for _, sh := range wireShapes(t, thorough) {
+					if sh.Flen > 128 {
+						continue
+					}
+					add("alias/S/"+tn(t), "ZZ_C14_alias_s", []string{"alias"}, sh.Args()...)
+				}
+				for _, sh := range smallWireShapes(t, thorough) {
+					add("interf/"+tn(t), "ZZ_C14_interf", []string{"interf"}, sh.Args()...)
+				}
+			}
+		}
 	case "C15":
 		add("vb/enc", "ZZ_C15_enc", []string{"enc"})
 		add("vb/rt", "ZZ_C15_rt", []string{"rt"})
@@ -66,9 +418,80 @@ func jobsFor(prop, tier string) []*Job {
 			add("vb/agree", "ZZ_C15_agree", []string{"agree"}, n)
 		}
 		add("vb/api", "ZZ_C15_api", []string{"api"})
+	case "C16":
+		for m := 0; m <= 2; m++ {
+			add("disp", "ZZ_C16_disp", []string{"disp"}, m)
+		}
+	case "C17":
+		for tl := 0; tl <= 2; tl++ {
+			for o := 0; o <= 1; o++ {
+				add("wf/pub", "ZZ_C17_pub", []string{"pub"}, tl, o)
+			}
+			for al := 0; al <= 1; al++ {
+				add("wf/pubwire", "ZZ_C17_pubwire", []string{"pubwire"}, tl, al)
+			}
+		}
+		for nf := 0; nf <= 2; nf++ {
+			for fl := 0; fl <= 1; fl++ {
+				for sid := 0; sid <= 1; sid++ {
+					if nf == 2 && !thorough && sid == 1 {
+						continue
+					}
+					add("wf/sub", "ZZ_C17_sub", []string{"sub"}, nf, fl, sid)
+				}
+				if nf > 0 {
+					add("wf/subwire", "ZZ_C17_subwire", []string{"subwire"}, nf, fl)
+				}
+			}
+		}
+		add("wf/tf", "ZZ_C17_tf", []string{"tf"}, 0)
+		add("wf/tf", "ZZ_C17_tf", []string{"tf"}, 1)
+	case "C18":
+		lens := []int{1, 2, 9, 10}
+		for _, mode := range []int{0, 1} {
+			for _, ul := range lens {
+				for _, pl := range lens {
+					if !thorough && ul != pl && ul+pl != 11 {
+						continue
+					}
+					shapes := []Sh{{Typ: 1, Slen: 1}, {Typ: 1, Slen: 1, Mask: apiMask(1), NUser: 1, Will: 1 | (1<<6-1)<<1, Nz: 1}}
+					if thorough {
+						shapes = append(shapes, Sh{Typ: 1, Slen: 2, Mask: 6, NUser: 2, Will: 1, Nz: 1}, Sh{Typ: 1, Slen: 9, Mask: 2, Nz: 1})
+					}
+					for _, sh := range shapes {
+						add("ni/connect", "ZZ_C18_ni", []string{"ni"}, append([]int{mode, ul, pl}, sh.Args()...)...)
+					}
+				}
+			}
+		}
+	case "C19":
+		add("zero", "ZZ_C19_zero", []string{"zero"})
+		for t := 0; t <= 15; t++ {
+			top := umMax(t) - 4
+			if thorough {
+				top = umMax(t) - 3
+			}
+			for n := 0; n <= top; n++ {
+				add("um/"+tn(t), "ZZ_C19_um", []string{"um"}, t, n)
+			}
+		}
+		for m := 0; m <= nmax(0, 4, 5); m++ {
+			add("rp", "ZZ_C19_rp", []string{"rp"}, m)
+		}
+		for k := 0; k <= 4; k++ {
+			add("bytes", "ZZ_C19_bytes", []string{"bytes"}, k)
+		}
+		for t := 1; t <= 15; t++ {
+			n := setterCount[t]
+			for k1 := 0; k1 < n; k1++ {
+				add("seq/"+tn(t), "ZZ_C19_seq", []string{"seq"}, t, 1, k1, (k1+1)%n)
+			}
+		}
 	}
 	return jobs
 }
+
+var setterCount = map[int]int{1: 20, 2: 19, 3: 14, 4: 4, 5: 4, 6: 4, 7: 4, 8: 4, 9: 4, 10: 3, 11: 4, 14: 2, 15: 5}
 
 func cmdSelftest(args []string) int {
 	w, err := loadWorld()
